@@ -2,6 +2,7 @@
 package sess
 
 import (
+	"errors"
 	"net"
 	"net/netip"
 	"sync"
@@ -16,6 +17,10 @@ type RecConn struct {
 	Frames [][]byte
 	closed chan struct{}
 	once   sync.Once
+	// FailEvery > 0: every FailEvery-th write fails (a full socket buffer, an interface going down); the frame is
+	// not recorded.  Used by the C09 stress run: a failed write must not leave a lock behind.
+	FailEvery int
+	writes    int
 }
 
 func NewRecConn() *RecConn { return &RecConn{closed: make(chan struct{})} }
@@ -28,10 +33,18 @@ func (c *RecConn) WriteTo(b []byte, addr net.Addr) (int, error) {
 	t := make([]byte, len(b))
 	copy(t, b)
 	c.mu.Lock()
+	c.writes++
+	if c.FailEvery > 0 && c.writes%c.FailEvery == 0 {
+		c.mu.Unlock()
+		return 0, errWrite
+	}
 	c.Frames = append(c.Frames, t)
 	c.mu.Unlock()
 	return len(b), nil
 }
+
+var errWrite = errors.New("write: no buffer space available")
+
 func (c *RecConn) Close() error                       { c.once.Do(func() { close(c.closed) }); return nil }
 func (c *RecConn) LocalAddr() net.Addr                { return nil }
 func (c *RecConn) SetDeadline(t time.Time) error      { return nil }
